@@ -72,7 +72,7 @@ def classify(rc, out, err, timed_out):
     return None, None
 
 
-def run_one(binary, wd, lang, cfg_text, data, timeout):
+def run_one(binary, wd, lang, cfg_text, data, timeout, valid=False):
     src = os.path.join(wd, "in.src")
     cfg = os.path.join(wd, "u.cfg")
     open(src, "wb").write(data)
@@ -84,7 +84,7 @@ def run_one(binary, wd, lang, cfg_text, data, timeout):
         return classify(p.returncode, p.stdout, p.stderr, False), p.returncode
     except subprocess.TimeoutExpired:
         # which loop? the line-width fixpoint of uncrustify_file() has a developer option that bounds it
-        if "code_width" in (cfg_text or ""):
+        if "code_width" in (cfg_text or "") and not valid:        # (recorded finding: malformed text / tiny widths; well-formed wide lines must terminate)
             open(cfg, "w").write((cfg_text or "") + "\ndebug_max_number_of_loops=3000\n")
             try:
                 p = subprocess.run([binary, "-c", cfg, "-l", lang, "-f", src], stdout=subprocess.PIPE, stderr=subprocess.PIPE, timeout=timeout, env=env)
@@ -102,7 +102,7 @@ MODS2 = ("mod_full_paren_if_bool=true\nmod_full_paren_assign_bool=true\nmod_full
          "mod_remove_duplicate_include=true\nmod_add_force_c_closebrace_comment=true\nmod_add_long_namespace_closebrace_comment=1\nmod_add_long_class_closebrace_comment=1\n"
          "mod_add_long_switch_closebrace_comment=1\nmod_add_long_ifdef_endif_comment=1\nmod_add_long_ifdef_else_comment=1\nmod_sort_oc_properties=true\n"
          "mod_int_long=add\nmod_long_int=force\nmod_unsigned_int=remove\nmod_enum_last_comma=remove\nmod_case_brace=remove\nmod_paren_on_throw=add\n"
-         "nl_collapse_empty_body=true\nnl_squeeze_ifdef=true\nnl_squeeze_paren_close=true\nalign_nl_cont=1\nalign_func_params=true\nalign_typedef_span=2\n")
+         "cmt_trailing_single_line_c_to_cpp=true\nnl_collapse_empty_body=true\nnl_squeeze_ifdef=true\nnl_squeeze_paren_close=true\nalign_nl_cont=1\nalign_func_params=true\nalign_typedef_span=2\n")
 # complete statements: the interesting thing is that nothing - not even a line break - follows them
 STATEMENTS = ["if (a != b && c) x();", "if (a != b ? c : d) x;", "return a != b && c;", "x = a < b || c;", "while (a && b != c) { y(); }", "for (;;) z();",
               "do x(); while (a || b == 1);", "switch (a) { case 1: return; }", "int v = (a) ? b : c;", "using namespace std;", "#include <a.h>", "#define M(a) a",
@@ -205,6 +205,20 @@ def make_inputs(r, tier):
         for L in ("C", "CPP"):
             cases.append(("tail-mods2", L, MODS2, b"void g(int a)\n{\n  if (a != b && c) x();\n  " + t.encode("latin1")))
             cases.append(("tail-profile", L, r.choice(profs), b"void g(int a)\n{\n  x = a;\n  " + t.encode("latin1")))
+    # well-formed lines that are wider than code_width and offer no place to split (templates/generics, long names, long literals):
+    # the align/indent/do_code_width() loop of uncrustify_file() must still come to rest
+    WIDE = [("CPP", "std::vector<some_very_long_type_name_that_exceeds_the_width_of_the_line> v;\n"),
+            ("CPP", "template <typename A> std::map<an_extremely_long_key_type_name_here, A> make_the_map_of_everything_there_is();\n"),
+            ("CPP", "void f() { std::unique_ptr<a_type_with_a_name_that_is_longer_than_the_line_allows> p; p.reset(); }\n"),
+            ("CS", "class K { List<SomeVeryLongGenericArgumentTypeNameThatDoesNotFitIntoTheLine> items; }\n"),
+            ("JAVA", "class K { Map<AnExtremelyLongKeyTypeNameForThisLine, AnotherQuiteLongValueTypeName> m; }\n"),
+            ("C", "int a_very_long_identifier_that_alone_is_wider_than_the_permitted_line_width_of_this_file = 1;\n"),
+            ("C", "const char *s = \"a string literal that is much longer than the line width permits and has no break\";\n"),
+            ("C", "x = call_of_a_function_with_a_long_name(another_call_with_a_long_name(and_a_third_one_to_be_sure(1)));\n")]
+    for L, text in WIDE:
+        for w in (20, 40, 60, 80):
+            for extra in ("", "ls_code_width=true\n", "indent_columns=8\n"):
+                cases.append(("valid-width", L, "code_width=%d\n%s" % (w, extra), text.encode()))
     from .. import cprogs
     for i in range(6 if tier == "quick" else 120):
         cpp = i % 2 == 1
@@ -236,7 +250,7 @@ def run(rep, build, tier, seed):
     def work(case):
         if not hasattr(tl, "wd"):
             tl.wd = tempfile.mkdtemp(dir=base)
-        (key, what), rc = run_one(ASAN_BIN, tl.wd, case[1], case[2], case[3], timeout)
+        (key, what), rc = run_one(ASAN_BIN, tl.wd, case[1], case[2], case[3], timeout, valid=case[0] == "valid-width")
         return case, key, what, rc
     with ThreadPoolExecutor(max_workers=14) as ex:
         for case, key, what, rc in ex.map(work, cases):
